@@ -426,18 +426,31 @@ var witnesses = []witness{
 		"var objs = [];\nfor (var i = 0; i < 2; i++) { var K = class { #x = i; get() { return this.#x; } static is(o) { return #x in o; } }; objs.push([new K, K]); }\ntry { $p(objs[0][0].get()); } catch (e) { $p(e.constructor.name); }\n$p(objs[0][1].is(objs[0][0]), objs[0][1].is(objs[1][0]));\n", es(api.ES2021)},
 	{"C05-F2c", "`o.#p ??= 5` where the getter of #p reassigns `o`: the setter runs on the new object",
 		"var o, other;\nclass D { #v = 0; get #p() { o = other; return null; } set #p(v) { this.#v = v; } static run() { o = new D; other = new D; var first = o; o.#p ??= 5; return [first.#v, other.#v]; } }\n$p(D.run());\n", es(api.ES2021)},
-	{"C05-F15", "`[o.#g = d] = []`: the private member with a default value in an array pattern is not lowered, the output assigns the public property `_g`",
-		"class E { #g = 0; static run(o) { [o.#g = \"dflt\"] = []; return [o.#g, Object.keys(o)]; } }\n$p(E.run(new E));\ntry { $p(E.run({})); } catch (e) { $p(e.constructor.name); }\n", es(api.ES2021)},
-	{"C05-F16", "`for (o.#g of xs)`: the private member as a for-of target is not lowered, the output assigns the public property `_g`",
-		"class G { #g = 0; static run(o) { for (o.#g of [7]) ; return [o.#g, Object.keys(o)]; } }\n$p(G.run(new G));\ntry { $p(G.run({})); } catch (e) { $p(e.constructor.name); }\n", es(api.ES2021)},
 	{"C05-F17", "`o?.#m?.()` with private names lowered and optional chaining kept (target es2021): the method is called without this",
 		"class K { #m() { return this instanceof K ? \"this ok\" : \"this lost\"; } #o = {f() { return this === undefined ? \"this lost\" : \"this ok\"; }}; run(o) { return [o?.#m?.(), (o?.#m)?.(), o?.#o.f?.()]; } }\n$p(new K().run(new K));\n", es(api.ES2021)},
+	{"C05-F18", "async arrow that uses `super` but not `this` (target es2016): lowered to `__async(null, null, function*(){ return __superGet(A.prototype, this, \"foo\") })`, this is null inside, a getter on the base class sees no receiver",
+		"class B { get foo() { return this.tag; } }\nclass A extends B { tag = \"a\"; m() { return async () => super.foo; } }\nnew A().m()().then(function(v) { $p(\"value\", v); }, function(e) { $p(\"rejected\", e.constructor.name); });\n", es(api.ES2016)},
+	{"C05-F19", "`yield*` inside a SYNC generator is wrapped in __yieldStar when async generators are lowered (target es2017): the delegate's Symbol.asyncIterator is preferred over Symbol.iterator",
+		"var src = {[Symbol.iterator]() { return [3][Symbol.iterator](); }, [Symbol.asyncIterator]() { throw new Error(\"async iterator used\"); }};\nfunction* g1() { yield* [1, 2]; yield* src; }\ntry { $p(Array.from(g1())); } catch (e) { $p(e.message); }\n", es(api.ES2017)},
+	{"C05-F20", "a parenthesised optional chain ending in a private member as a template tag, ``(a?.#b)`x` `` (target es2020: private names lowered, optional chaining kept): the tag is called without this (F17 family)",
+		"class K { #b(s) { return this instanceof K ? \"this ok\" : \"this lost\"; } run(a) { return (a?.#b)`x`; } }\n$p(new K().run(new K));\n", es(api.ES2020)},
+	{"C05-F21", "`constructor() { return super() }` in a derived class with lowered fields (target es2020): the __super() shim is turned back into super() and then not used, the field initialisers are never run",
+		"class B2 {}\nclass A2 extends B2 { x = 1; constructor() { return super(); } }\n$p(new A2().x);\n", es(api.ES2020)},
 }
 
 // Findings that were repaired by a fix: commit in /repo: their inputs (and close
 // variants) must behave identically now; a difference is a VIOLATION (a revert
 // of the fix is reported with the input).
 var mustPass = []witness{
+	{"C05-F15", "`[o.#g = d] = []`: the private member with a default value in an array pattern is not lowered, the output assigns the public property `_g`",
+		"class E { #g = 0; static run(o) { [o.#g = \"dflt\"] = []; return [o.#g, Object.keys(o)]; } }\n$p(E.run(new E));\ntry { $p(E.run({})); } catch (e) { $p(e.constructor.name); }\n", es(api.ES2021)},
+	{"C05-F16", "`for (o.#g of xs)`: the private member as a for-of target is not lowered, the output assigns the public property `_g`",
+		"class G { #g = 0; static run(o) { for (o.#g of [7]) ; return [o.#g, Object.keys(o)]; } }\n$p(G.run(new G));\ntry { $p(G.run({})); } catch (e) { $p(e.constructor.name); }\n", es(api.ES2021)},
+	{"C05-F15", "(variant) nested patterns and an accessor target: `[[o.#g = 6]] = [[]]`, `({x: [o.#a = 2]} = {x: []})`",
+		"class E { #g = 0; get #a() { return 1; } set #a(v) { $p(\"set a\", v); } static run(o) { [[o.#g = 6]] = [[]]; ({x: [o.#a = 2]} = {x: []}); return [o.#g, Object.keys(o)]; } }\n$p(E.run(new E));\ntry { $p(E.run({})); } catch (e) { $p(e.constructor.name); }\n", es(api.ES2015)},
+	{"C05-F16", "(variant) for-in target, pattern in a for-of head, only class-private-field unsupported",
+		"class G { #g = 0; static run(o) { for (o.#g in {k: 1}) ; var a = o.#g; for ([o.#g = 3] of [[]]) ; var b = o.#g; for ({x: o.#g = 5} of [{}]) ; return [a, b, o.#g, Object.keys(o)]; } }\n$p(G.run(new G));\ntry { $p(G.run({})); } catch (e) { $p(e.constructor.name); }\n",
+		api.TransformOptions{Loader: api.LoaderJS, LogLevel: api.LogLevelSilent, Target: api.ESNext, Supported: map[string]bool{"class-private-field": false}}},
 	{"C05-F8", "`super.x` inside an `async *` method: the lowered generator callback still contains `super` (output is a SyntaxError, no error reported)",
 		"class A { get v() { return \"base-v\"; } }\nclass B extends A { async *ag() { yield super.v; } }\n(async () => { for await (var q of new B().ag()) $p(q); })();\n", es(api.ES2017)},
 	{"C05-F9", "lowered async generator: return() (e.g. break in for-await) while suspended in a try whose finally awaits skips the rest of the finally block",
